@@ -393,6 +393,34 @@ fn vec_like(report: &Report, depth: usize) {
     if a != Ok(Some(1)) || b != Err("boom") {
         bad.push(("FallibleIteratorReadWords::read | error not propagated".into(), format!("{:?} {:?}", a, b)));
     }
+    // (InfallibleIteratorReadWords::new demands an iterator of Results and can therefore not be constructed for a source of
+    // words, see DESIGN.md 6.5; the fallible adapter is the one that can be used.)
+    // the exhaustion contract of every iterator-backed source, for exact-size AND inexact iterators of every
+    // length 0..=4: `maybe_exhausted() == false` obliges the next read to yield a word; reads come in order; the
+    // end is fused; `remaining` (where offered) is the number of reads that succeed
+    for n in 0..=4u8 {
+        macro_rules! drive {
+            ($name:literal, $src:expr) => {{
+                let mut it = $src;
+                let expect: Vec<u8> = (0..n).map(|i| 40 + i).collect();
+                for k in 0..(n as usize + 3) {
+                    let claims_data = !ReadWords::<u8, Queue>::maybe_exhausted(&it);
+                    let got = ReadWords::<u8, Queue>::read(&mut it);
+                    total += 1;
+                    let got = match got { Ok(g) => g, Err(_) => { bad.push((format!("{} | read fails on an infallible source", $name), format!("n {n} read #{k}"))); break; } };
+                    if got != expect.get(k).copied() {
+                        bad.push((format!("{} | wrong order / not fused", $name), format!("n {n} read #{k}: {:?}", got)));
+                    }
+                    if claims_data && got.is_none() {
+                        bad.push((format!("{} | maybe_exhausted() returned false but the next read found no data", $name), format!("source of {n} words, read #{k}")));
+                    }
+                }
+            }};
+        }
+        drive!("FallibleIteratorReadWords over an exact-size iterator", FallibleIteratorReadWords::new((0..n).map(|i| Ok::<u8, ()>(40 + i))));
+        drive!("FallibleIteratorReadWords over a filtered (inexact) iterator", FallibleIteratorReadWords::new((0..2 * n).filter(|i| i % 2 == 0).map(|i| Ok::<u8, ()>(40 + i / 2))));
+        drive!("FallibleIteratorReadWords over iter::from_fn", { let mut k = 0u8; FallibleIteratorReadWords::new(std::iter::from_fn(move || { k += 1; if k <= n { Some(Ok::<u8, ()>(39 + k)) } else { None } })) });
+    }
     // callback adapters
     let mut sink = vec![];
     {
